@@ -8,7 +8,7 @@ EXPLANATION = (
     "strip-prefix | delegate-to-leaf-parser) and compared per prefix class: a class must yield an event in both readers or "
     "in neither, and event lines must reach the same leaf parsers."
 )
-DECIDED = ["per prefix class (empty, #, //, BATCH, @, {, other): event-or-not agreement of the two readers", "same leaf parsers for JSON and .evt lines", "streaming iterator delegates every line to parse_line"]
+DECIDED = ["per prefix class (empty, #, //, BATCH, @, {, other): event-or-not agreement of the two readers", "same leaf parsers for JSON and .evt lines", "streaming iterator delegates every line to parse_line", "both readers normalise (trim) a line identically before classifying it"]
 NOT_DECIDED = ["field values inside the leaf parsers (shared code)", "oversized-line skipping of the streaming reader (documented limit)"]
 
 PRELOAD = "varpulis_runtime::event_file::EventFileParser::parse"
@@ -161,6 +161,25 @@ def run(ctx):
     dl_p, def_p = decision_list(ctx, F, PRELOAD, lb["stmts"], lb["tail"], leaves, strippers)
     sb = hs["body"]
     dl_s, def_s = decision_list(ctx, F, STREAM, sb["stmts"], sb["tail"], leaves, strippers)
+    # both readers must normalise a line the same way BEFORE classifying it (the classes are prefix tests): the string
+    # normalisers applied by `let line = line.<normaliser>()` statements ahead of the first prefix test
+    def normalisers(stmts):
+        out = []
+        for st in stmts:
+            if st.get("k") == "let" and st.get("init") is not None:
+                e = H.strip(st["init"])
+                while e is not None and e.get("k") == "mcall":
+                    if e["method"] in ("trim", "trim_start", "trim_end", "trim_matches", "trim_start_matches", "trim_end_matches", "to_lowercase", "to_uppercase", "strip_prefix", "strip_suffix"):
+                        out.append(e["method"])
+                    e = H.strip(e["recv"])
+            elif st.get("k") in ("expr", "semi") or st.get("k") == "if":
+                break
+        return sorted(out)
+    np_, ns_ = normalisers(lb["stmts"]), normalisers(sb["stmts"])
+    if np_ == ns_:
+        ctx.ok("dlist", "normalise", "both readers classify the line after %s" % (np_ or "no normalisation"))
+    else:
+        ctx.violation("dlist", "normalise", "the preload reader classifies a line after %s, the streaming reader after %s: an indented comment / BATCH / JSON line is skipped (or parsed as JSON) by one reader and handed to the .evt parser by the other" % (np_ or "no normalisation", ns_ or "no normalisation"), site=hs["span"])
     ctx.sample({"reader": "preload", "decision_list": [[p, list(a)] for p, a in dl_p], "default": list(def_p) if def_p else None})
     ctx.sample({"reader": "streaming", "decision_list": [[p, list(a)] for p, a in dl_s], "default": list(def_s) if def_s else None})
     classes = sorted(set(p for preds, _ in dl_p + dl_s for p in preds) | {"", "<other>"})
